@@ -641,7 +641,7 @@ struct IterWorker {
 fn check_itersim(o: &Opts) {
 	let t0 = Instant::now();
 	let known = load_known(&o.verif);
-	let total = tier_runs(o, 20_000_000, 400_000_000);
+	let total = tier_runs(o, 20_000_000, 1_200_000_000);
 	println!("irefsim itersim property=C12 tier={} seed={} runs={} jobs={}", o.tier, o.seed, total, o.jobs);
 	let (corpus_n, known_lines) = run_corpus(o, &known, "C12");
 	let seed = o.seed;
@@ -788,7 +788,7 @@ fn check_allocsim(o: &Opts) {
 	let t0 = Instant::now();
 	let known = load_known(&o.verif);
 	let thorough = o.tier == "thorough";
-	let total = tier_runs(o, 8_000_000, 150_000_000);
+	let total = tier_runs(o, 8_000_000, 600_000_000);
 	println!("irefsim allocsim property=C20 tier={} seed={} runs={} jobs={}", o.tier, o.seed, total, o.jobs);
 	let (corpus_n, known_lines) = run_corpus(o, &known, "C20");
 	let seed = o.seed;
